@@ -10,7 +10,7 @@ From Coq Require Import String Ascii List Bool ZArith.
 From LC Require Import Common NumDefs XmlDefs EntTreeDefs PrintDefs LoadDefs RoundtripSpec XmlTextProofs
      RoundtripReadProofs RoundtripLoadProofs RoundtripFlatProofs RoundtripEncProofs RoundtripOrderProofs
      RoundtripStableProofs RoundtripMapsProofs RoundtripPathProofs RoundtripConnProofs RoundtripConnTopProofs
-     RoundtripConnFinalProofs RoundtripImportProofs RoundtripImportContentProofs RoundtripWitness RoundtripStableEncProofs.
+     RoundtripConnFinalProofs RoundtripImportProofs RoundtripImportContentProofs RoundtripWitness RoundtripStableEncProofs RoundtripStableConnProofs.
 From LCGen Require RuleTable.
 Import ListNotations.
 Local Open Scope string_scope.
@@ -136,6 +136,34 @@ Example C02_first_print_stable_refuted :
      = print_tree E_stable (RoundtripStableEncProofs.reparsed E_stable RoundtripStableEncProofs.w_order).
 Proof. exact RoundtripStableEncProofs.first_print_differs. Qed.
 Print Assumptions C02_first_print_stable_refuted.
+
+(** * the SECOND round with CONNECTIONS (no imports; any hierarchy, ids, resets, math), every printable model: the model m'
+      the strict parser builds from the first document has no imports and satisfies every conjunct of `printable` except
+      possibly eqv_ok; so under ONE decidable premise about its resolved equivalences - eqv_ok true m' = true - it is
+      printable, prints to the intended tree, and the strict parser reads that second document without any issue into a
+      model with the content of canon m' (up to child order) *)
+Theorem C02_second_round_connections : forall E,
+  (forall x, num_ok E x = true -> num_ok E (round15 E x) = true /\ round15 E (round15 E x) = round15 E x) ->
+  (forall s, math_ok E s = true ->
+     math_ok E (canon_math E s) = true /\ canon_math E (canon_math E s) = canon_math E s
+     /\ has_math E (canon_math E s) = has_math E s) ->
+  forall m, printable E true m -> no_imports m = true ->
+  exists m', print_model E true m = Some (print_tree E m) /\ load E true true (print_tree E m) = (m', [])
+    /\ content_eq m' (canon E m) /\ no_imports m' = true
+    /\ (eqv_ok true m' = true ->
+        printable E true m'
+        /\ exists m'', print_model E true m' = Some (print_tree E m') /\ load E true true (print_tree E m') = (m'', [])
+                       /\ content_eq m'' (canon E m')).
+Proof. exact RoundtripStableConnProofs.second_round_conn. Qed.
+Print Assumptions C02_second_round_connections.
+
+(** non-vacuity: a printable model with crossed connections, no imports; the premise holds of its re-parsed model *)
+Example C02_second_round_connections_nonvacuous :
+  printableb E_stable true w_crossed_names = true /\ no_imports w_crossed_names = true
+  /\ negb (no_connections w_crossed_names) = true
+  /\ eqv_ok true (fst (load E_stable true true (print_tree E_stable w_crossed_names))) = true.
+Proof. exact RoundtripStableConnProofs.second_round_conn_nonvacuous. Qed.
+Print Assumptions C02_second_round_connections_nonvacuous.
 
 (** * the grouping logic of the printer, for EVERY input order *)
 
@@ -333,7 +361,9 @@ Print Assumptions C02_rules_in_table.
        change the forest during the fold over connections, so RoundtripConnProofs.load_group's "forest unchanged"
        no longer holds).
    second_print_stable with CONNECTIONS or IMPORTS (C02_second_print_stable_flat and
-       C02_second_print_stable_encapsulation are proved: flat models and hierarchies of any depth): needs printable
-       (re-parsed model), i.e. edges_distinct / one_cid_per_pair / vpath_valid for the RESOLVED equivalences; not done.
+       C02_second_print_stable_encapsulation are proved: flat models and hierarchies of any depth).  With connections
+       C02_second_round_connections reduces the second round to ONE decidable premise, eqv_ok of the re-parsed model
+       (edges_distinct / one_cid_per_pair / vpath_valid for the RESOLVED equivalences); that premise for every printable
+       model, and the exact fixed point (m'' = m'), are not proved.  With imports: not done.
    Both statements are CHECKED on every generated model by the correspondence run (extracted printableb / load / canon
    compared up to child order; second print and second parse compared with the model and with the first). *)
